@@ -26,6 +26,13 @@ PIECES = {
             "    class Kind(Enum):\n        A = 1\n    class NT2(typing.NamedTuple):\n        a: int\n        b: int = 0\n"),
     "AT": "import attrs\n@attrs.define\nclass AT:\n    a: object\n    b: int = 5\n    c: list = attrs.Factory(list)\n",
     "PM": "import pydantic\nclass PM(pydantic.BaseModel):\n    a: object\n    b: int = 7\n",
+    # objects built by a helper that modifies a defaulted (never passed) field in place
+    "mk_pm": ("import pydantic\nclass PML(pydantic.BaseModel):\n    a: object\n    c: list = pydantic.Field(default_factory=list)\n    n: int = 0\n\n"
+              "def mk_pm(*items):\n    o = PML(a=1)\n    o.c.extend(items)\n    return o\n"),
+    "mk_dc": "def mk_dc(*items):\n    o = DC(x=1)\n    o.z.extend(items)\n    return o\n",
+    "mk_at": "def mk_at(*items):\n    o = AT(a=1)\n    o.c.extend(items)\n    return o\n",
+    "DC2": "@dataclass\nclass DC2:\n    x: object\n    y: int = 0\n    z: list = field(default_factory=list)\n",
+    "KEYNAME": "KEYNAME = 'kn'\n",
     "NT": "from collections import namedtuple\nNT = namedtuple('NT', 'a,b')\n",
     "NTD": "from collections import namedtuple\nNTD = namedtuple('NTD', 'a,b', defaults=[9])\n",
     "defaultdict": "from collections import defaultdict\n",
@@ -44,7 +51,7 @@ PIECES = {
 _NAME_RE = re.compile(r"\b(" + "|".join(sorted(PIECES, key=len, reverse=True)) + r")\b")
 
 
-DEPS = {"DCS": "DC", "DCX": "DC", "ATS": "AT", "PMS": "PM", "NTS": "NT"}
+DEPS = {"mk_dc": "DC", "mk_at": "AT", "DC2": "DC", "DCS": "DC", "DCX": "DC", "ATS": "AT", "PMS": "PM", "NTS": "NT"}
 
 
 def prologue_for(exprs, extra=()):
@@ -99,6 +106,7 @@ A_FULL = (
     + [V("defaultdict(list, {'a': [1]})", "dd", False, None), V("defaultdict(list)", "dd", False, None),
        V("defaultdict(int, {1: 2})", "dd", False, None)]
     + [V("Opaque(1)", "opaque", True, None)]
+    + [V("mk_pm(3)", "pydantic", False, None), V("mk_pm()", "pydantic", False, None), V("mk_dc(3)", "dc", False, None), V("mk_at(3)", "attrs", False, None)]
 )
 HEAVY = {"pydantic", "attrs", "dd", "opaque"}
 A_LIGHT = [v for v in A_FULL if v.kind not in HEAVY]
